@@ -44,6 +44,10 @@ class _State:
         self.log = None
         self.arm_lines = {}
         self.done = False
+        # post-call mode: the landing alphabet is "right after a call made by a run-loop function has returned" (the instruction
+        # following each CALL) instead of the line starts: the two differ where the next line lies in another try range
+        self.post = bool(spec.get('post_call'))
+        self.instr = set()
 
     def arm_line_of(self, code):
         """Line number(s) of the arming statement inside this code object (located by source text, not by number)."""
@@ -85,6 +89,8 @@ def _on_line(code, line):
                 st.armed_obj = threading.current_thread()     # idents are reused once the thread is gone; objects are not
                 st.arming = None
                 _open_log(st)
+                if st.post:
+                    _instrument_stack(st)
                 # this very event is event number 1
             else:
                 return None
@@ -99,9 +105,14 @@ def _on_line(code, line):
                     if st.hits == st.arm_hit:
                         st.worker = slf
                         st.arming = (code, threading.get_ident())
+                        if st.post:
+                            _instrument(st, code)     # the return of the arming statement's own call is the first point
             return None
     if threading.get_ident() != st.armed_thread or threading.current_thread() is not st.armed_obj:
         return None
+    if st.post:
+        _instrument(st, code)
+        return None          # line starts are not counted in this mode
     if _is_try_line(fn, line):
         # the NOP CPython emits for a "try:" line lies outside every exception-table range (even the one of an enclosing
         # try) and is no eval-breaker site: a real asynchronous exception can never be raised there, so it is no landing point
@@ -121,6 +132,105 @@ def _on_line(code, line):
                 break
             f = f.f_back
             depth += 1
+    st.sites.append(site)
+    if st.log is not None:
+        st.log.write(' '.join(str(x) for x in (k,) + site) + '\n')
+        st.log.flush()
+    ev = st.events.get(k)
+    if ev is not None:
+        _deliver(st, k, ev, site)
+    return None
+
+
+_post = {}
+_CALLS = ('CALL', 'CALL_FUNCTION_EX', 'CALL_KW')
+
+
+def _post_offsets(code):
+    """offset of the instruction following each CALL -> (line, crosses a try boundary?)."""
+    r = _post.get(code)
+    if r is not None:
+        return r
+    r = {}
+    try:
+        import dis
+        ins = list(dis.get_instructions(code))
+        table = dis._parse_exception_table(code)
+
+        def handler(off):
+            for e in table:
+                if e.start <= off < e.end:
+                    return e.target
+            return None
+        for i, x in enumerate(ins[:-1]):
+            if x.opname not in _CALLS:
+                continue
+            o = ins[i + 1].offset
+            line = x.positions.lineno if x.positions else None
+            j = i + 1
+            while j < len(ins) and not (ins[j].starts_line is not None and ins[j].positions.lineno != line):
+                j += 1
+            while j < len(ins) and ins[j].opname == 'NOP':
+                j += 1
+            nxt = ins[j].offset if j < len(ins) else None
+            r[o] = (line, nxt is None or handler(o) != handler(nxt))
+    except Exception:  # noqa
+        pass
+    _post[code] = r
+    return r
+
+
+def _instrument(st, code):
+    if code in st.instr:
+        return
+    st.instr.add(code)
+    if code.co_name in ANCHORED or os.path.basename(code.co_filename) in ('targets.py', 'statew.py'):
+        try:
+            sys.monitoring.set_local_events(TOOL, code, sys.monitoring.events.INSTRUCTION)
+        except ValueError:
+            pass
+
+
+def _instrument_stack(st):
+    f = sys._getframe(2)
+    depth = 0
+    while f is not None and depth < 60:
+        c = f.f_code
+        if any(x in c.co_filename for x in st.files):
+            _instrument(st, c)
+        f = f.f_back
+        depth += 1
+    w = st.worker
+    for klass in type(w).__mro__ if w is not None else ():
+        for name in ANCHORED:
+            fn = klass.__dict__.get(name)
+            c = getattr(fn, '__code__', None)
+            if c is not None and any(x in c.co_filename for x in st.files):
+                _instrument(st, c)
+
+
+def _on_instr(code, offset):
+    st = _state
+    if st is None or st.done or not st.post:
+        return None
+    info = _post_offsets(code).get(offset)
+    if info is None:
+        return sys.monitoring.DISABLE
+    if st.armed_thread is None:
+        if st.arming is not None and code is st.arming[0] and threading.get_ident() == st.arming[1] and info[0] in st.arm_line_of(code):
+            st.armed_thread = st.arming[1]
+            st.armed_obj = threading.current_thread()
+            st.arming = None
+            _open_log(st)
+            _instrument_stack(st)
+        else:
+            return None
+    if threading.get_ident() != st.armed_thread or threading.current_thread() is not st.armed_obj:
+        return None
+    line, boundary = info
+    st.count += 1
+    k = st.count
+    site = (os.path.basename(code.co_filename), line, code.co_name + ('+ret!' if boundary else '+ret'))
     st.sites.append(site)
     if st.log is not None:
         st.log.write(' '.join(str(x) for x in (k,) + site) + '\n')
@@ -287,6 +397,7 @@ def _ensure_tool():
         mon.free_tool_id(TOOL)
         mon.use_tool_id(TOOL, 'pwv-land')
     mon.register_callback(TOOL, mon.events.LINE, _on_line)
+    mon.register_callback(TOOL, mon.events.INSTRUCTION, _on_instr)
     mon.set_events(TOOL, mon.events.LINE)
     _tool_ready = True
 
@@ -298,6 +409,7 @@ def shutdown():
         mon = sys.monitoring
         mon.set_events(TOOL, 0)
         mon.register_callback(TOOL, mon.events.LINE, None)
+        mon.register_callback(TOOL, mon.events.INSTRUCTION, None)
         mon.free_tool_id(TOOL)
         _tool_ready = False
 
